@@ -396,13 +396,15 @@ class Interp:
         if failures:
             tmin = min((r[1].t if r[1].t is not None else t) for _, r in failures)
             cands = [(i, r) for i, r in failures if (r[1].t if r[1].t is not None else t) == tmin]
+            if getattr(self, "any_failing_branch", False):
+                cands = list(failures)      # schedule-agnostic: a reply may be delivered late, any failing branch may be acted upon first
             if len({(c[1][1].names, repr(c[1][1].cause)) for c in cands}) > 1:
                 self.ambiguous_failure = True
             i, r = cands[self.choose_failure([c[0] for c in cands]) % len(cands)]
             e = r[1]
             # a Fail state's Cause that travels through a Parallel/Map may be decorated by the interpreter:
             # it must still be contained in the reported cause
-            e2 = StateError(e.names, cause=e.cause, t=tmin, exact_cause="contains" if e.exact_cause else False)
+            e2 = StateError(e.names, cause=e.cause, t=(e.t if e.t is not None else tmin), exact_cause="contains" if e.exact_cause else False)
             e2.failed_branches = [c[0] for c in cands]
             e2.all_failed = [i for i, _ in failures]
             raise e2
